@@ -135,6 +135,13 @@ void apply_cfg(bxdecay0::decay0_generator & g, const GenCfg & c)
   if (c.mdl > 0) g.add_operation(make_mdl(c.mdl));
 }
 
+void apply_cfg(bxdecay0::decay0_generator & g, const GenCfg & c, const std::shared_ptr<bxdecay0::i_event_op> & op)
+{
+  GenCfg c2 = c; c2.mdl = 0;
+  apply_cfg(g, c2);
+  if (c.mdl > 0) g.add_operation(op ? op : make_mdl(c.mdl));
+}
+
 bool EventRec::operator==(const EventRec & o) const
 {
   if (label != o.label || time != o.time || parts.size() != o.parts.size()) return false;
